@@ -340,6 +340,25 @@ func callOrder(fd *ast.FuncDecl, names map[string]bool) []string {
 	return out
 }
 
+// methodCallsOn lists, in source order, the methods called on the plain identifier `recv` in fd.
+func methodCallsOn(fd *ast.FuncDecl, recv string) []string {
+	var out []string
+	if fd == nil {
+		return nil
+	}
+	ast.Inspect(fd.Body, func(n ast.Node) bool {
+		if ce, ok := n.(*ast.CallExpr); ok {
+			if sel, ok := ce.Fun.(*ast.SelectorExpr); ok {
+				if id, ok := sel.X.(*ast.Ident); ok && id.Name == recv {
+					out = append(out, sel.Sel.Name)
+				}
+			}
+		}
+		return true
+	})
+	return out
+}
+
 func strLit(e ast.Expr) (string, bool) {
 	if bl, ok := e.(*ast.BasicLit); ok && bl.Kind == token.STRING {
 		s, err := strconv.Unquote(bl.Value)
@@ -736,6 +755,11 @@ func main() {
 		e.z("readResponseBufSize", v, err, 4096, "agent/utils const readResponseBufSize")
 		v, err = c(a, "requestCacheLimit")
 		e.z("requestCacheLimit", v, err, 1000, "agent const requestCacheLimit")
+		{
+			pf := a.funcDecl("pollForNewRequests")
+			e.strs("dedupConstructor", assignedExprs(pf, "previouslySeenRequests"), pf != nil, []string{"lru.New(requestCacheLimit)"}, "agent pollForNewRequests: what the set of previously seen request IDs is (a recency-ordered LRU cache)")
+			e.strs("dedupMethods", methodCallsOn(pf, "previouslySeenRequests"), pf != nil, []string{"Get", "Add"}, "agent pollForNewRequests: methods called on it, in source order (Get refreshes the recency of a re-listed ID)")
+		}
 		keys, ok := u.mapKeys("hopHeaders")
 		e.strs("hopHeaders", keys, ok, nil, "agent/utils var hopHeaders (keys mapped to true, sorted)")
 		hm := a.headerMethods("forwardRequest", "HeaderUserID")
@@ -829,6 +853,26 @@ func main() {
 		e.zs("proxyRequestIDsChanCap", caps, s.funcDecl("newProxy") != nil, []int64{0}, "server newProxy: capacity of the request-ID channel")
 		caps = s.chanCaps(s.funcDecl("newPendingRequest"))
 		e.zs("pendingRespChanCap", caps, s.funcDecl("newPendingRequest") != nil, []int64{0}, "server newPendingRequest: capacity of the response channel")
+		{
+			mn := s.funcDecl("main")
+			e.strs("serverMainHTTPCalls", pkgCalls(mn, "http"), mn != nil, []string{"http.Serve"}, "server main: calls into net/http (the proxy is served by http.Serve: no read, write or idle deadlines)")
+			var fields []string
+			for _, f := range s.files {
+				ast.Inspect(f, func(n ast.Node) bool {
+					cl, ok := n.(*ast.CompositeLit)
+					if !ok || cl.Type == nil || types.ExprString(cl.Type) != "http.Server" {
+						return true
+					}
+					for _, el := range cl.Elts {
+						if kv, ok := el.(*ast.KeyValueExpr); ok {
+							fields = append(fields, types.ExprString(kv.Key))
+						}
+					}
+					return true
+				})
+			}
+			e.strs("serverHTTPServerFields", fields, true, nil, "server package: fields set in http.Server literals (none: no such literal)")
+		}
 		sh := s.methodDecl("proxy", "ServeHTTP")
 		e.strs("frontendIDSources", assignedExprs(sh, "id"), sh != nil, []string{"p.newID()"}, "server proxy.ServeHTTP: every expression assigned to the request ID `id` (must be the proxy's own fresh draw)")
 		e.strs("frontendTableKeys", indexKeysAssigned(sh, "p.requests"), sh != nil, []string{"id"}, "server proxy.ServeHTTP: keys under which a pending request is entered into p.requests")
